@@ -13,7 +13,7 @@ EXPLANATION = ("The same history of operations runs on a sparse and on a dense a
                "storage must raise OutOfBoundsError.")
 BOUNDS = {
     "quick": "histories of <=2 operations from {set, in-place update of a read vector, append, += list, += container, clear, "
-             "as_array, delete+recreate}, all five attribute types, arity 1-2, custom or implicit default, initial size 1-2 "
+             "as_array, delete+recreate} (+= list with 0, 1, 2, 9 or 20 new elements, += container with 1 or 9), all five attribute types, arity 1-2, custom or implicit default, initial size 1-2 "
              "(float, int) or 1 (bool, complex, str); histories of 3 operations on float attributes (5 operation kinds); "
              "the bounds predicate for all sizes and keys (unbounded ints)",
     "thorough": "histories of <=2 operations for all types with initial size 1-2; <=3 operations for float and int; "
@@ -90,6 +90,9 @@ def _eq(a, b):
     return r
 
 
+EXTEND_LENGTHS = [2, 0, 1, 9, 20]
+
+
 def history(L, types, max_size=2, ops_allowed=None, kinds=None):
     def h(sx):
         from mouette.mesh.data_container import DataContainer
@@ -97,6 +100,10 @@ def history(L, types, max_size=2, ops_allowed=None, kinds=None):
         undo = _install(sx)
         try:
             _run(sx, L, types, max_size, ops_allowed, kinds, DataContainer, Attribute)
+        except Exception as e:
+            import traceback
+            where = [f for f in traceback.extract_tb(e.__traceback__) if f.filename.endswith("c05.py")][-1].line
+            sx.check(False, "a valid container / attribute operation raised", detail="%s: %r" % (where, e))
         finally:
             undo()
     return h
@@ -254,12 +261,20 @@ def _run(sx, L, types, max_size, ops_allowed, kinds, DataContainer, Attribute):
             cd.append(size)
             size += 1
         elif op == "extend":
-            cs += [size, size + 1]
-            cd += [size, size + 1]
-            size += 2
+            # lengths on both sides of the usual growth policies (none, +1, doubling from small sizes, more than doubling)
+            n_new = EXTEND_LENGTHS[sx.choice("extend_len%d" % step, len(EXTEND_LENGTHS))]
+            for nm, c in (("sparse", cs), ("dense", cd)):
+                try:
+                    c += list(range(size, size + n_new))
+                except Exception as e:
+                    sx.check(False, "appending a list raised" + tag.replace("]", ", %s attribute]" % nm), detail="%d new elements: %r" % (n_new, e))
+                    return
+            size += n_new
         elif op == "extend_container":
             other = DataContainer(id="o")
-            other.append(99)
+            n_other = 9 if sx.flag("other_is_long%d" % step) else 1
+            for j in range(n_other):
+                other.append(99 + j)
             if sx.flag("other_has_attr%d" % step):
                 other.create_attribute("y", int)
             for nm, c in (("sparse", cs), ("dense", cd)):
@@ -268,7 +283,7 @@ def _run(sx, L, types, max_size, ops_allowed, kinds, DataContainer, Attribute):
                 except Exception as e:
                     sx.check(False, "appending another container raised" + tag.replace("]", ", %s attribute]" % nm), detail=repr(e))
                     return
-            size += 1
+            size += n_other
         elif op == "clear":
             a_s.clear()
             a_d.clear()
